@@ -16,12 +16,13 @@ OptMix    == {Opt(p, o, FALSE, FALSE) : p \in {1, 2}, o \in BOOLEAN}
 OptAll    == {Opt(p, o, w, b) : p \in 0..2, o \in BOOLEAN, w \in BOOLEAN, b \in BOOLEAN}
 OptWeak3  == {Opt(1, FALSE, FALSE, FALSE), Opt(1, FALSE, TRUE, FALSE), Opt(2, FALSE, TRUE, TRUE)}
 OptErr    == {Opt(1, FALSE, FALSE, FALSE), Opt(1, TRUE, FALSE, TRUE)}
-AutoTwo   == {[prio |-> 1, weak |-> TRUE], [prio |-> 2, weak |-> FALSE]}
+AutoTwo   == {[prio |-> 1, weak |-> TRUE, prefix |-> ""], [prio |-> 2, weak |-> FALSE, prefix |-> ""]}
+AutoThree == AutoTwo \cup {[prio |-> 1, weak |-> FALSE, prefix |-> "other"]}
 OptPaths  == {Opt(1, FALSE, FALSE, FALSE), Opt(2, TRUE, FALSE, FALSE)}
 OptPlain  == {Opt(1, FALSE, FALSE, FALSE)}
 AutoNone  == {}
-AutoBulk  == {[prio |-> 1, weak |-> FALSE]}
-AutoAll   == {[prio |-> p, weak |-> w] : p \in {1, 2}, w \in BOOLEAN}
+AutoBulk  == {[prio |-> 1, weak |-> FALSE, prefix |-> ""]}
+AutoAll   == {[prio |-> p, weak |-> w, prefix |-> x] : p \in {1, 2}, w \in BOOLEAN, x \in {"", "other"}}
 RVplain   == {"none", "halt"}
 RVremove  == {"none", "false", "remove", "haltremove", "true"}
 RVall     == {"none", "true", "false", "cont", "halt", "remove", "haltremove",
